@@ -447,8 +447,10 @@ pub fn flex_layout(
                 child.align.align(direction.minor(child_size), minor),
             ));
 
-            major_offset += child_size.major(direction);
-            major_offset += space_between;
+            // final size is clamped by the constraint, so it is fine to saturate
+            major_offset = major_offset
+                .saturating_add(child_size.major(direction))
+                .saturating_add(space_between);
 
             child_layout_opt = child_layout.sibling();
         }
